@@ -41,6 +41,9 @@ BODIES = {
     "closure_sibling_capture": "var prev = keep[(i + KEEP - 1) % KEEP]; fn mk(p) { var a = p; var ga = || a; var b = [i]; return || b; } keep[i % KEEP] = mk(prev); total += 1;",
     "closure_sibling_capture_block": "var prev = keep[(i + KEEP - 1) % KEEP]; var out = nil; { var a = prev; var ga = || a; var b = [i]; out = || b; } keep[i % KEEP] = out; total += 1;",
     "closure_sibling_capture_param": "var prev = keep[(i + KEEP - 1) % KEEP]; var mk = |p| { var user = || p; var own = (i,); return || own; }; keep[i % KEEP] = mk(prev); total += 1;",
+    "fiber_finally_return_chain": "var fb = Fiber.new(|| { fn r() { try { return [keep[(i + KEEP - 1) % KEEP], i]; } finally { total += 1; } } r(); Fiber.yield(0); return 0; }); fb.call(); keep[i % KEEP] = fb;",
+    "fiber_finally_return_done": "var fb = Fiber.new(|| { fn r() { try { return [keep[(i + KEEP - 1) % KEEP], i]; } finally { total += 1; } } r(); return 0; }); fb.call(); keep[i % KEEP] = fb;",
+    "main_finally_return_big": "fn r() { try { var big = []; for q in 0..40 { big.push([q, i]); } return big; } finally { total += 1; } } r(); keep[i % KEEP] = i;",
     "iter_chain": "var o = [i, i + 1, i + 2].iter().map(|v| v * 2).filter(|v| v % 4 == 0).collect(); keep[i % KEEP] = o; total += o.len();",
     "iterators": "var a = [i].iter(); var b = (i,).iter(); var c = \"ab\".iter(); var d = (0..2).iter(); a.next(); b.next(); c.next(); d.next(); keep[i % KEEP] = [a, b, c, d]; total += 1;",
     "caught_error": "try { nil + i; } catch e { keep[i % KEEP] = e; total += 1; }",
